@@ -97,7 +97,14 @@ def user_value(e, j):
         return None
     if sv[0] == 'str':
         s = sv[1]
-        return None if (s and all(c == 255 for c in s)) else s.decode('latin-1')
+        if s and all(c == 255 for c in s):
+            return None
+        # every other character field is handed over the way a user writes it - without the trailing blanks (an
+        # all-blank field as the empty string): the encoder pads to the field width (C02).  The choice goes with the
+        # position, so that the subsets of one compressed column are spelt alike (equal contents, equal spelling)
+        if (e.get('p', 0) // 8) % 2 == 0:
+            s = s.rstrip(b' ')
+        return s.decode('latin-1')
     if sv[0] == 'int':
         return sv[1]
     n, sc = sv[1], sv[2]
